@@ -57,6 +57,13 @@ def _run_isolated(mod, prog, res):
 
 
 RESTRUCTURED = 16
+# Rules whose verdict is read off ONE expression and the declared kind of the
+# names in it (a numeric option tested for truthiness, a tuple looked up in a
+# container of lists, a reduction of a per-unit tensor without an axis): the
+# statement shape of the surrounding function plays no part, so they are not
+# subject to the restructure gate.  On the stored refactoring corpus the gate
+# never had to suppress one of them.
+EXPRESSION_LOCAL_RULES = frozenset(['N0', 'T4', 'X1'])
 
 
 def _restructure_gate(prog, res):
@@ -106,6 +113,8 @@ def _restructure_gate(prog, res):
 
   for o in res.obligations:
     if o.status != 'violation':
+      continue
+    if getattr(o, 'rule', None) in EXPRESSION_LOCAL_RULES:
       continue
     m = re.match(r'(.*\.py):(\d+)$', str(o.loc))
     if not m:
